@@ -35,8 +35,17 @@ def parseOp (s : String) : Option Op :=
   | _ => none
 
 def parseProd (s : String) : Option Prod :=
+  let val (pre : String) : Option Res := (s.drop pre.length).toString.toNat?.map .val
   if s = "drop" then some .drop
-  else if s.startsWith "set:" then (s.drop 4).toString.toNat?.map (fun n => .set (.val n))
+  else if s.startsWith "set:" then (val "set:").map .set
+  else if s.startsWith "seton:" then (val "seton:").map .set                 -- MakeSharedContractOn
+  else if s.startsWith "scoro:" then (val "scoro:").map .set                 -- a SharedFuture coroutine co_returns
+  else if s = "split_drop" then some (.up false .err)                         -- the upstream Promise is dropped
+  else if s.startsWith "split_set:" then (val "split_set:").map (.up false)  -- Split(f), upstream Promise::Set: Here
+  else if s.startsWith "conn_set:" then (val "conn_set:").map (.up false)    -- Connect(f, SharedPromise): Here
+  else if s.startsWith "split_coro:" then (val "split_coro:").map (.up true) -- upstream coroutine: Next
+  else if s.startsWith "split_coro_then:" then (val "split_coro_then:").map (.up true)
+  else if s.startsWith "conn_coro:" then (val "conn_coro:").map (.up true)
   else none
 
 partial def parseProgs (hdr : List String) (i : Nat) (acc : List (List Op)) : Option (List (List Op)) :=
